@@ -10,10 +10,11 @@ HARNESSES = [
     ("crypto/storage/fs", ["crypto/storage/fs/zz_verif_c03_test.go"], "c03fs"),
     ("crypto/storage/vault", ["crypto/storage/vault/zz_verif_c03_test.go"], "c03vault"),
     ("crypto", ["crypto/zz_verif_c03_test.go"], "c03ks"),
+    ("crypto/storage/external", ["crypto/storage/external/zz_verif_c03_test.go"], "c03ext"),
     ("crypto/api/v1", ["crypto/api/v1/zz_verif_c03_test.go", "crypto/api/v1/zz_verif_c03b_test.go"], "c03api"),
 ]
-PKG, HARNESS = HARNESSES[2][0], HARNESSES[2][1]
-PARTS = {"c03fs": "fs", "c03vault": "vault", "c03ks": "ks", "c03api": "api"}
+PKG, HARNESS = HARNESSES[2][0], HARNESSES[2][1]   # crypto (ks)
+PARTS = {"c03fs": "fs", "c03vault": "vault", "c03ks": "ks", "c03api": "api", "c03ext": "ext"}
 
 REQUIRED = [
     "kid_confined", "kid_confined_vault", "valid_kid_bytes", "kid_pattern_language", "uuid_names_confined",
@@ -32,7 +33,8 @@ REQUIRED = [
     "fact_api_validate_checks", "fact_api_status_table", "fact_api_handler_steps", "api_signjws_200_only_by_key_id",
     "api_signjwt_200_only_by_key_id", "api_unknown_kid_is_400", "api_invalid_request_independent_of_store", "api_decrypt_200_only_by_key_id",
     "fact_dpop_sign_overwrites_jwk", "dpop_jwk_is_signing_key",
-    "fact_fs_list_callback", "fs_list_roundtrip", "fs_listed_name_shape", "fs_list_separator_not_checked",
+    "api_sign_response_independent_of_key_material", "fact_fs_list_callback",
+    "fact_external_name_to_path", "external_target_confined", "external_valid_name_not_dot_segment", "fs_list_roundtrip", "fs_listed_name_shape", "fs_list_separator_not_checked",
 ]
 
 STORE_KEY_JWKS = {"ecPriv", "ec384Priv", "rsaPriv", "edPriv"}   # JWK kinds of the key types a key store can hold
@@ -467,6 +469,49 @@ def run(ctx):
         else:
             ctx.oblige("exploration:canary-scan-ran", False, "ks_canary.json missing")
 
+
+    # ------------------------------------------------------------------ external secret-store backend: request targets
+    if "ext" in outs:
+        ops, impl, model, bad, out = outs["ext"]
+        total += len(impl)
+        esc = acc = 0
+        targets = {}
+        for i, line in enumerate(impl):
+            op = json.loads(ops[i]) if i < len(ops) and ops[i] else {}
+            distinct.add(("ext", op.get("base"), op.get("kid")))
+            mx = re.fullmatch(r"extpath res=(\S+) reqs=\[([A-Z0-9a-f:,]*)\]", line)
+            if not mx:
+                found_violation |= ctx.violation("C03:ext:panic-or-garbage", line[:200], "ext-garbage.jsonl", ops[i])
+                continue
+            name = unhex(op.get("kid", ""))
+            reqs = [x.split(":", 1) for x in mx.group(2).split(",") if x]
+            refused = mx.group(1).startswith("invalid-key-id")
+            base = op.get("base", "")
+            want_dir = (base if base.endswith("/") else base + "/").encode()
+            why = None
+            if refused and reqs:
+                why = "refused-name-reached-the-server"
+            for meth, hx in reqs:
+                tgt = unhex(hx)
+                # direct oracle on the wire: <base dir>secrets/<ONE segment>, no query, no fragment, not a dot segment,
+                # and the segment unescaped twice is the name
+                seg = tgt[len(want_dir) + len(b"secrets/"):] if tgt.startswith(want_dir + b"secrets/") else None
+                if seg is None or b"/" in seg or b"?" in seg or b"#" in seg or seg in (b"", b".", b".."):
+                    why = "request-target-outside-the-secrets-namespace"
+                else:
+                    from urllib.parse import unquote_to_bytes
+                    if unquote_to_bytes(unquote_to_bytes(seg)) != name:
+                        why = "request-target-names-another-key"
+                    prev = targets.setdefault((base, tgt), name)
+                    if prev != name:
+                        why = "two-key-names-share-a-request-target"
+            if why:
+                esc += 1
+                found_violation |= ctx.violation("C03:ext:" + why, f"key name {name!r}, server path {base!r}: requests {[(m_, unhex(h_)) for m_, h_ in reqs][:4]}",
+                                                 "ext-target.jsonl", ops[i])
+            acc += 0 if refused else 1
+        ctx.oblige("oracle:external-backend-targets-stay-in-secrets-namespace(impl)", esc == 0, f"{esc}")
+        dist["external_backend"] = {"ops": len(impl), "accepted": acc, "distinct_targets": len(targets)}
 
     # ------------------------------------------------------------------ REST wrapper (modelled leg)
     if "api" in outs:
